@@ -480,7 +480,40 @@ func checkC04(c *Ctx, r *Report) {
 		}
 	}
 
+	// ---------- R6 ----------
+	r.Rule("C04-R6", "each per-attempt proxy function performs at most one upstream RoundTrip on any path (a candidate is contacted at most once per attempt; re-sending inside the attempt re-uses a consumed body and hides the failure from the retry loop)", 2)
+	for _, af := range attemptFuncs(c) {
+		pc := newPathCounter(c, func(in ssa.Instruction) int {
+			cc := getCall(in)
+			if cc == nil {
+				return -1
+			}
+			ci := describeCall(cc)
+			if ci.Name == "RoundTrip" || (ci.Pkg == "net/http" && ci.Recv == "Client" && ci.Name == "Do") {
+				return 0
+			}
+			return -1
+		})
+		many := false
+		var at *ssa.Return
+		for ret, s := range pc.perReturn(af, 0) {
+			for _, v := range vsVectors(s) {
+				if v[0] > 1 {
+					many, at = true, ret
+				}
+			}
+		}
+		key := fname(af) + ":single-roundtrip"
+		if many {
+			r.Bad("C04-R6", key, retPos(af, at), "some path through the attempt performs more than one upstream RoundTrip: the same candidate is contacted twice for one attempt")
+		} else {
+			r.OK("C04-R6", key, af.Pos(), "at most one RoundTrip on every path")
+		}
+	}
+
 	addMutants(
+		Mutant{Prop: "C04", Name: "resend-on-reset", File: "internal/adapter/proxy/sherpa/service_retry.go", Rule: "C04-R6",
+			Old: "	stats.BackendResponseMs = time.Since(backendStart).Milliseconds()\n", New: "	if err != nil && errors.Is(err, context.Canceled) == false && resp == nil {\n		resp, err = s.transport.RoundTrip(proxyReq.Clone(ctx))\n	}\n	stats.BackendResponseMs = time.Since(backendStart).Milliseconds()\n"},
 		Mutant{Prop: "C04", Name: "circuit-open-plain-error", File: "internal/adapter/proxy/olla/service_retry.go", Rule: "C04-R1", Canary: true,
 			Old: `return fmt.Errorf("%w for endpoint %s", core.ErrCircuitOpen, endpoint.Name)`, New: `return fmt.Errorf("circuit breaker open for endpoint %s", endpoint.Name)`},
 		Mutant{Prop: "C04", Name: "skip-without-remove", File: "internal/adapter/proxy/core/retry.go", Rule: "C04-R2", Expect: "removes",
